@@ -1972,6 +1972,8 @@ class Interp:
         if name in u.imports:
             tgt = u.imports[name]
             nm = tgt.rsplit(".", 1)[-1]
+            if tgt in self.pm.units and not self.pm.units[tgt].env:
+                return ModuleRef(tgt)              # a module of the package imported as a name (`from pkg import mod [as m]`)
             if tgt in self.pm.functions:
                 return FuncRef(self.pm.functions[tgt])
             if tgt in self.pm.classes:
@@ -2233,6 +2235,14 @@ class Interp:
                 raise AbsRaise(f"AttributeError: '{obj.cls}' object has no attribute '{attr}'", where)
             raise AnalysisError("ABSINT", f"enum attribute {attr} outside fragment", where)
         if isinstance(obj, ModuleRef):
+            if obj.name in self.pm.units and not self.pm.units[obj.name].env:
+                v_ = self.module_name(self.pm.units[obj.name], attr)
+                if v_ is _MISSING:
+                    sub = f"{obj.name}.{attr}"
+                    if sub in self.pm.units:
+                        return ModuleRef(sub)
+                    raise AbsRaise(f"AttributeError: module '{obj.name}' has no attribute '{attr}'", where)
+                return v_
             if obj.name in _PURE_MODULES:
                 import importlib
                 val_ = getattr(importlib.import_module(obj.name), attr, _MISSING)
@@ -2597,6 +2607,13 @@ class Interp:
                 where: str) -> Any:
         if name == "object":
             return Native() if not args else (_ for _ in ()).throw(AbsRaise("TypeError: object() takes no arguments", where))
+        if name in ("chr", "ord", "hex", "bin", "oct", "ascii"):
+            if any(isinstance(a, (AObj, OrdInt, EnumVal)) for a in args):
+                raise AbsRaise(f"TypeError: {name}() of an object", where)
+            try:
+                return {"chr": chr, "ord": ord, "hex": hex, "bin": bin, "oct": oct, "ascii": ascii}[name](*args)
+            except (TypeError, ValueError, OverflowError) as exc:
+                raise AbsRaise(f"{type(exc).__name__}: {exc}", where) from exc
         if name == "format":
             v = args[0]
             spec = args[1] if len(args) > 1 else ""
@@ -2759,8 +2776,10 @@ class Interp:
         if name == "int":
             if isinstance(args[0], OrdInt):
                 return args[0]
+            if isinstance(args[0], (AObj, EnumVal)):
+                raise AbsRaise(f"TypeError: int() argument must be a string or a number, not an object", where)
             try:
-                return int(args[0])
+                return int(*args, **kwargs)            # int(text, base) included
             except (ValueError, TypeError) as exc:
                 raise AbsRaise(f"{type(exc).__name__}: int({args[0]!r})", where) from exc
         if name in ("min", "max"):
@@ -3604,7 +3623,7 @@ _STR_METHODS = {"translate", "expandtabs", "center", "ljust", "rjust", "swapcase
                 "islower", "isnumeric", "removeprefix", "removesuffix"}
 _PURE_MODULES = ("textwrap", "string", "keyword", "unicodedata", "html", "shlex", "math", "itertools", "fnmatch", "posixpath",
                  "statistics", "cmath", "bisect", "heapq")
-_BUILTINS = {"issubclass", "format", "property", "staticmethod", "classmethod", "object", "slice", "NotImplemented", "map", "filter", "divmod", "pow", "repr", "type", "iter", "vars", "open", "setattr", "getattr", "dir", "round", "print", "reversed", "hash", "id", "len", "any", "all", "sum", "next", "isinstance", "list", "tuple", "set", "sorted",
+_BUILTINS = {"chr", "ord", "hex", "bin", "oct", "ascii", "issubclass", "format", "property", "staticmethod", "classmethod", "object", "slice", "NotImplemented", "map", "filter", "divmod", "pow", "repr", "type", "iter", "vars", "open", "setattr", "getattr", "dir", "round", "print", "reversed", "hash", "id", "len", "any", "all", "sum", "next", "isinstance", "list", "tuple", "set", "sorted",
              "str", "bool", "int", "min", "max", "enumerate", "zip", "range", "hasattr",
              "callable", "float", "abs", "dict", "frozenset", "cast"}
 
